@@ -1657,7 +1657,10 @@ class DiameterMessage:
     def set_flag_by_app_id(self, app_id: bytes) -> None:
         """Set / unset the Command Flags bit as per Application-ID field value.
         """
-        if app_id == DIAMETER_APPLICATION_DEFAULT:
+        #: Whether it was given as bytes or as an integer.
+        if app_id == DIAMETER_APPLICATION_DEFAULT or \
+                (isinstance(app_id, int) and not isinstance(app_id, bool) and
+                 app_id == 0):
             if self.header.is_proxiable():
                 self.header.set_proxiable_bit(False)
         else:
